@@ -29,6 +29,10 @@ def make_cases(rng, tier):
         for _ in range(rng.randrange(3, 9)):
             ops.append({"op": rng.choice(["start", "start", "start", "delete", "nocache"])})
         cases.append({"depth": rng.randrange(0, 5), "ops": [{"op": "start"}] + ops})
+    # the cache's directory loses owner permission bits between runs (never gaining group/other ones): the cache is still THE cache
+    for rep, mode in enumerate(["500", "100", "300", "700"] if tier == "quick" else ["500", "100", "300", "700", "400", "000"]):
+        cases.append({"depth": 1 + rep % 3, "ops": [{"op": "start"}, {"op": "start"}, {"op": "dirmode", "mode": mode}, {"op": "start"}, {"op": "start"},
+                                                      {"op": "dirmode", "mode": "700"}, {"op": "start"}]})
     # a cache whose certificate has outlived its lifespan (the first run creates it already expired): still THE cache
     for rep in range(3 if tier == "quick" else 30):
         ops = [{"op": "start", "life_s": -3600 * (rep + 1)}]
@@ -120,7 +124,23 @@ def check(run):
                "MkdirAll mode %s, WriteFile mode %s" % (m1 and m1.group(1), m2 and m2.group(1)))
     cases = make_cases(run.rng, run.tier)
     os.umask(0o022)
-    res, err = vlib.run_drv(drv, "cert", cases, args=[run.rundir], timeout=1200)
+    # the environment of the runs: TMPDIR on ANOTHER file system than the cache (when the machine has one) - a save that goes through a temporary
+    # file cannot simply rename it into place there
+    env, other = None, None
+    try:
+        if os.path.isdir("/dev/shm") and os.stat("/dev/shm").st_dev != os.stat(run.rundir).st_dev:
+            import tempfile
+            other = tempfile.mkdtemp(prefix="verif-c08-", dir="/dev/shm")
+            env = dict(os.environ, TMPDIR=other)
+    except OSError:
+        pass
+    run.cov["tmpdir_on_other_filesystem"] = bool(other)
+    try:
+        res, err = vlib.run_drv(drv, "cert", cases, args=[run.rundir], timeout=1200, env=env)
+    finally:
+        if other:
+            import shutil
+            shutil.rmtree(other, ignore_errors=True)
     if err or not res or len(res) != len(cases):
         run.oblige("cert driver ran all cases", False, str(err))
         return
